@@ -68,6 +68,14 @@ func (n *BitcoinNode) handleMessage(ctx context.Context, connection net.Conn) er
 	errChan := make(chan error, 1)
 	start := time.Now()
 	go func() {
+		// Data from the peer must never crash the process. Convert a panic in a handler into an
+		// error so that only this connection is closed.
+		defer func() {
+			if r := recover(); r != nil {
+				errChan <- fmt.Errorf("panic handling message : %v", r)
+			}
+		}()
+
 		errChan <- handler(ctx, header, connection)
 	}()
 
@@ -601,6 +609,12 @@ func (n *BitcoinNode) handleTx(ctx context.Context, header *wire.MessageHeader,
 	tx := &wire.MsgTx{}
 	errChan := make(chan error, 1)
 	go func() {
+		defer func() {
+			if r := recover(); r != nil {
+				errChan <- fmt.Errorf("panic reading tx : %v", r)
+			}
+		}()
+
 		errChan <- readMessage(rb, header, tx)
 	}()
 
